@@ -74,6 +74,7 @@ def R(text): return {'kind': 'raw', 'text': text}
 def RB(text): return {'kind': 'rawbuf', 'text': text}
 def CC(*ch): return {'kind': 'concat', 'children': list(ch)}
 def BX(x): return {'kind': 'boxed', 'inner': x}
+def CA(x): return {'kind': 'cached', 'inner': x}
 
 
 TREES_QUICK = [
@@ -123,6 +124,7 @@ REPLACE_QUICK = [
     ('replace(concat[orig ab,rawstr c/d],[sym X])', RP(CC(O('ab'), RS('c\nd')), (Q, Q, 'X'))),
     ('replace(orig ab,[beyond end X],[beyond end /Y])', RP(O('ab'), (5, 7, 'X'), (9, 9, '\nY'))),
     ('replace(orig abc,[])', RP(O('a;c'))),
+    ('concat[replace(orig ab,[beyond end X/c]),orig d b]', CC(RP(O('ab'), (Q, Q, 'X\nc')), O('d', 'b.js'))),
 ]
 HISTORY_QUICK = [
     ('history:replace(orig abcd,[ins sym B];source;[ins sym A];source;[ins sym C])', RP(O('abcd'), (Q, 'S', 'B', None, 1, ['source']), (Q, 'S', 'A', None, 1, ['source']), (Q, 'S', 'C'))),
@@ -169,6 +171,8 @@ SMS_QUICK = [
     ('replace(sms(abcd content differs),[sym X])', RP(SM('abcd', 'AAAA,EAAE', ('o.js',), ('wxyz',)), (Q, Q, 'X'))),
     ('replace(sms(abcd content equal, named),[sym X])', RP(SM('abcd', 'AAAAA,EAAEC', ('o.js',), ('abcd',), ('n1', 'n2')), (Q, Q, 'X'))),
     ('sms(empty text, empty map)', SM('', '', ('o.js',))),
+    ('concat[sms(ab/ trailing newline, zero-width last segment),orig c b]', CC(SM('ab\n', 'AAAA;?A?A', ('o.js',)), O('c', 'b.js'))),
+    ('sms(ab, absolute source + root)', SM('ab', 'AAAA,CCAA', ('/abs/o.js', 'rel.js'), (), (), 'w://p')),
     ('sms(ab, only unmapped segments)', SM('ab', 'A,C', ('o.js',))),
 ]
 SMS_WILD = [
@@ -198,6 +202,9 @@ COMBINED_QUICK = [
     ('combined: identity column adjustment', SMC('abcd', 'AAA?', ('i.js',), 'AAAA', ('q.js',), 'abc\nde', inner_contents=('abc\nde',))),
     ('combined: inner names and outer names', SMC('abcd', 'AAAAA,CAA?C', ('i.js',), 'AAAAA,EAAE', ('q.js',), 'xyzw', outer_names=('xy', 'zw'), inner_names=('n0',), inner_contents=('xyzw',))),
     ('combined: 3 outer sources, 2 inner sources', SMC('ab\ncd', 'AAAA,CCAA;ACAC', ('o.js', 'i.js', 'p.js'), 'AAAA,?CAA', ('q.js', 'r.js'), 'xyz', inner_contents=('q', 'r'))),
+    ('combined: original only in outer contents, no inner mapping for line 2', SMC('ab\ncd', 'AAAA;AAC?', ('i.js', 'o.js'), 'AAAA', ('q.js',), None, outer_contents=('xy\nuv', 'oo'))),
+    ('combined: outer name reused where the text differs', SMC('abcd', 'AAAAA,CAAEA', ('i.js',), 'AAAA,EAAE', ('q.js',), 'xyzw', outer_names=('xy',), inner_contents=('xyzw',))),
+    ('combined: outer name resolved by pass-through first', SMC('abcd', 'ACAAA,CDAEA', ('i.js', 'o.js'), 'AAAA,EAAE', ('q.js',), 'xyzw', outer_names=('zz',), inner_contents=('xyzw',))),
     ('combined under concat', CC(SMC('ab', 'AAAA,CAA?', ('i.js',), 'AAAA,CAAE', ('q.js',), 'xyz'), RS('!'))),
 ]
 
@@ -235,15 +242,22 @@ def replace_jobs(props):
 VIEWS = ['source', 'rope', 'buffer', 'size', 'writer', 'writerfail']
 
 
+BIN_TREES = [
+    ('concat[rawbuf invalid utf8,rawstr]', CC({'kind': 'rawbuf', 'text': '', 'bytes': [97, 255, 98]}, RS('!'))),
+    ('concat[raw buffer e2 82,orig]', CC({'kind': 'raw', 'text': '', 'bytes': [0xE2, 0x82]}, O('a'))),
+    ('rawbuf invalid utf8', {'kind': 'rawbuf', 'text': '', 'bytes': [0xC3, 40, 0x80]}),
+    ('cached(concat[rawbuf,rawbuf])', CA(CC({'kind': 'rawbuf', 'text': '', 'bytes': [0xF0, 0x9F]}, {'kind': 'rawbuf', 'text': '', 'bytes': [0x98, 0x80]}))),
+]
+
+
 def views_jobs(tier, seed):
-    jobs = []
+    jobs = [J('views:' + t[0], 'jobs.streams:tree_job', dict(tree=t[1], props=['C07'], what=VIEWS), timeout=600) for t in BIN_TREES]
     for cat in (TREES_QUICK, REPLACE_QUICK, SMS_QUICK[:4]):
         for t in cat:
             jobs.append(J('views:' + t[0], 'jobs.streams:tree_job', dict(tree=t[1], props=['C07'], what=VIEWS, alphabet=t[2] if len(t) > 2 and isinstance(t[2], str) else 'q'), timeout=600))
     return jobs
 
 
-def CA(x): return {'kind': 'cached', 'inner': x}
 OBS10 = ['source', 'size', 'c1f0', 'c0f0', 'c1f1', 'c0f1', 'map1', 'map0']
 C10_QUICK = [
     ('cached(concat[orig a;/?,rawstr1]) x 2 symbolic ops', CA(CC(O('a;\n?'), RS('!'))), dict(history_slots=2)),
@@ -254,6 +268,8 @@ C10_QUICK = [
     ('cached(orig a;/b) x 3 symbolic ops', CA(O('a;\nb')), dict(history_slots=3)),
     ('concat[cached(orig2),rawstr1] after map,stream', CC(CA(O('??')), RS('!')), dict(history=['map1', 'c1f0', 'map0'], alt='uncached')),
     ('replace(cached(orig a;b),[sym X]) after map,stream', RP(CA(O('a;b')), (Q, Q, 'X')), dict(history=['map1', 'c1f0', 'source'], alt='uncached')),
+    ('cached(concat[rawstr,orig blank lines,rawstr]) x 2 symbolic ops', CA(CC(RS('x\n'), O('\n\n'), RS('y'))), dict(history_slots=2)),
+    ('cached(concat[orig a,orig b other file]) x 2 symbolic ops', CA(CC(O('a'), O('b', 'b.js'), RS('!'))), dict(history_slots=2)),
     ('cached(cached(orig2)) x 2 symbolic ops', CA(CA(O('??'))), dict(history_slots=2, alt='uncached')),
 ]
 
@@ -415,7 +431,7 @@ PROPS = {
     'C03': dict(jobs=[tree_jobs(['C03']), replace_jobs(['C03']), sms_jobs(['C03']), combined_jobs(['C03'])], bounds=RTREE_BOUNDS, outside=TREE_OUTSIDE, assumptions=TREE_ASSUME),
     'C04': dict(jobs=[tree_jobs(['C04']), replace_jobs(['C04'])], bounds=RTREE_BOUNDS, outside=TREE_OUTSIDE, assumptions=TREE_ASSUME),
     'C07': dict(jobs=[views_jobs], bounds={'quick': 'all trees of TREES_QUICK, REPLACE_QUICK (symbolic replacement ranges) and four SourceMapSource shapes: source(), rope(), buffer(), size(), to_writer() into a recording writer, and to_writer() into a writer that fails after a SYMBOLIC number k <= 64 of bytes', 'thorough': 'as quick'},
-                outside='invalid UTF-8 buffers and multi-byte texts (lossy decoding is a std function; engine K covers RawSource/RawBufferSource byte views when registered); the real Rope representation (C16)', assumptions=TREE_ASSUME + ['std::io::Write is modelled by a recording writer whose write_all accepts a prefix and then fails']),
+                outside='multi-byte valid UTF-8 texts in the tree jobs (the lossy decoding of invalid buffers is covered by concrete binary leaves); the real Rope representation (C16)', assumptions=TREE_ASSUME + ['std::io::Write is modelled by a recording writer whose write_all accepts a prefix and then fails']),
     'C08': dict(jobs=[sms_jobs(['C08'])], bounds={'quick': 'catalog lib/props.py:SMS_QUICK: SourceMapSource leaves over concrete ASCII texts (1-3 lines, empty lines, trailing line break, empty text) whose maps are mapping-string templates with up to 5 SYMBOLIC single-digit VLQ fields (values < 6; assumed sorted, inside the text, indices in range), 1-2 sources, 0-2 names, with/without sourcesContent, sourceRoot none / empty / r / r/; streamed directly in all four (columns x final) modes, through map(), as first and second child of a ConcatSource and under a ReplaceSource', 'thorough': 'as quick'},
                 outside='multi-digit VLQ fields in the given map (the decoder itself is C12), texts longer than 3 lines, the user-defined-source entry stream_chunks_default (same function underneath), non-ASCII text', assumptions=TREE_ASSUME),
     'C05': dict(jobs=[replace_jobs(['C05'])], bounds=RTREE_BOUNDS, outside='texts longer than the catalog, more than 4 replacements, non-ASCII texts (engine K covers the real String/Rope code on multi-byte shapes when registered); rope()/buffer()/size() views are C07', assumptions=TREE_ASSUME),
